@@ -44,11 +44,11 @@ Proof.
     apply Z.mod_small. lia.
 Qed.
 
-Lemma gtable_tts t :
-  t < 256 ->
-  exists z, tts STpl t = Ok z /\ gtable thrift_typeToSize (wrapu 8 (i8 t)) = Ok z /\ (-128 <= z <= 127)%Z.
+Lemma gtable_tts_site site t :
+  tts_signed site = false -> t < 256 ->
+  exists z, tts site t = Ok z /\ gtable thrift_typeToSize (wrapu 8 (i8 t)) = Ok z /\ (-128 <= z <= 127)%Z.
 Proof.
-  intros H. destruct tts_table_ok as [Hl Hr]. unfold tts, gtable. rewrite tpl_site_unsigned, wrapu8_i8 by exact H.
+  intros Hsite H. destruct tts_table_ok as [Hl Hr]. unfold tts, gtable. rewrite Hsite, wrapu8_i8 by exact H.
   cbn [andb]. destruct (Z.ltb_spec (Z.of_N t) 0); [lia|].
   replace (Z.to_nat (Z.of_N t)) with (N.to_nat t) by lia.
   destruct (nth_error thrift_typeToSize (N.to_nat t)) as [z|] eqn:E.
@@ -57,6 +57,11 @@ Proof.
     + apply nth_error_In in E. rewrite forallb_forall in Hr. specialize (Hr _ E). lia.
   - apply nth_error_None in E. lia.
 Qed.
+
+Lemma gtable_tts t :
+  t < 256 ->
+  exists z, tts STpl t = Ok z /\ gtable thrift_typeToSize (wrapu 8 (i8 t)) = Ok z /\ (-128 <= z <= 127)%Z.
+Proof. apply gtable_tts_site, tpl_site_unsigned. Qed.
 
 Lemma wraps8_i8 x : x < 256 -> wraps 8 (Z.of_N x) = i8 x.
 Proof. intros H. unfold i8. apply wraps_ts8. exact H. Qed.
@@ -74,6 +79,12 @@ Proof.
   destruct (N.ltb_spec (len b) 4) as [H|H]; [eexists; reflexivity|].
   split; [reflexivity|]. change (firstn 4 b) with (take 4 b).
   pose proof (unbe_take_lt 4 b W H) as L. change (256 ^ 4) with 4294967296 in L. exact L.
+Qed.
+
+Lemma i32_range u : u < 4294967296 -> (- 2 ^ 31 <= i32 u < 2 ^ 31)%Z.
+Proof.
+  intros H. unfold i32, to_signed. change (2 ^ (32 - 1)) with 2147483648. change (Z.of_N (2 ^ 32)) with 4294967296%Z.
+  destruct (N.ltb_spec u 2147483648); lia.
 Qed.
 
 Section Tpl.
@@ -285,12 +296,6 @@ Section Tpl.
   Proof.
     intros _. unfold mN. destruct (skipN s (Z.to_N n)) as [s1 [b|e|w|]]; cbn [sbind bind ssim]; try reflexivity.
     eexists; reflexivity.
-  Qed.
-
-  Lemma i32_range u : u < 4294967296 -> (- 2 ^ 31 <= i32 u < 2 ^ 31)%Z.
-  Proof.
-    intros H. unfold i32, to_signed. change (2 ^ (32 - 1)) with 2147483648. change (Z.of_N (2 ^ 32)) with 4294967296%Z.
-    destruct (N.ltb_spec u 2147483648); lia.
   Qed.
 
   Theorem g_thrift_SkipDecoderTpl_Skip_sim : forall d rfuel fuel fu s t,
